@@ -454,9 +454,24 @@ func (a *Aff) lin(v ssa.Value) *Lin {
 						live = append(live, i)
 					}
 				}
+				// `n := len(s); if n > k { n = k }`: a merge all of whose live incoming values are
+				// provably non-negative where they come from is non-negative
+				nonneg := len(live) > 0
+				for _, i := range live {
+					if !a.Prove(blk.Preds[i], GE(a.Lin(x.Edges[i]), LinConst(0))) {
+						nonneg = false
+					}
+				}
 				delete(a.resolvingPhi, x)
 				if len(live) == 1 {
 					return a.Lin(x.Edges[live[0]])
+				}
+				if nonneg {
+					s := a.sym(v)
+					if _, done := a.defFacts[s]; !done {
+						a.defFacts[s] = []Con{GE(LinSym(s), LinConst(0))}
+					}
+					return LinSym(s)
 				}
 			}
 		}
